@@ -351,10 +351,16 @@ func readvertiserFacts(repo string) string {
 // number of MUTATING calls it makes into table.Rib / table.FibStrategyTable (fibCalls) and how many of them
 // sit in a loop (fibCallsInLoop). One management command must be ONE table operation: a command implemented
 // as two table operations (e.g. re-registration as remove + add) exposes the state between them to lookups.
+//
+// One call is not the command's own: `table.Rib.CleanUpFace(x)` inside `if face.FaceTable.Get(x) == nil { … }`.
+// FaceTable.Remove takes the face out of the face table BEFORE it cleans the RIB, so a handler that finds the
+// face gone after its insertion repeats the (idempotent) clean-up of that face's teardown: the state between the
+// two calls is the one of the order "command, then teardown" and the state after it the one every order ends in.
+// These are listed separately (mgmtGuardedCleanups) and do not count as a second operation of the command.
 func mgmtHandlerFacts(repo string) string {
 	mut := map[string]bool{"AddEncRoute": true, "RemoveRouteEnc": true, "CleanUpFace": true, "InsertNextHopEnc": true,
 		"RemoveNextHopEnc": true, "ClearNextHopsEnc": true, "ReplaceNextHopsEnc": true, "SetStrategyEnc": true, "UnSetStrategyEnc": true}
-	var rows []string
+	var rows, cleanups []string
 	for _, file := range []string{"rib.go", "fib.go", "strategy-choice.go"} {
 		fset := token.NewFileSet()
 		f, err := parser.ParseFile(fset, filepath.Join(repo, "fw", "mgmt", file), nil, 0)
@@ -380,7 +386,40 @@ func mgmtHandlerFacts(repo string) string {
 				}
 				return true
 			})
-			calls, inLoop := 0, 0
+			// `if face.FaceTable.Get(x) == nil { … }` blocks, by the identifier x
+			type goneSpan struct {
+				span
+				id string
+			}
+			var gone []goneSpan
+			ast.Inspect(fd.Body, func(n ast.Node) bool {
+				is, ok := n.(*ast.IfStmt)
+				if !ok {
+					return true
+				}
+				be, ok := is.Cond.(*ast.BinaryExpr)
+				if !ok || be.Op != token.EQL {
+					return true
+				}
+				if nl, ok := be.Y.(*ast.Ident); !ok || nl.Name != "nil" {
+					return true
+				}
+				c, ok := be.X.(*ast.CallExpr)
+				if !ok || len(c.Args) != 1 {
+					return true
+				}
+				arg, ok := c.Args[0].(*ast.Ident)
+				if !ok {
+					return true
+				}
+				if sel, ok := c.Fun.(*ast.SelectorExpr); ok && sel.Sel.Name == "Get" {
+					if inner, ok := sel.X.(*ast.SelectorExpr); ok && inner.Sel.Name == "FaceTable" {
+						gone = append(gone, goneSpan{span{is.Body.Pos(), is.Body.End()}, arg.Name})
+					}
+				}
+				return true
+			})
+			calls, inLoop, guarded := 0, 0, 0
 			ast.Inspect(fd.Body, func(n ast.Node) bool {
 				c, ok := n.(*ast.CallExpr)
 				if !ok {
@@ -392,6 +431,26 @@ func mgmtHandlerFacts(repo string) string {
 				}
 				if inner, ok := sel.X.(*ast.SelectorExpr); ok {
 					if pk, ok := inner.X.(*ast.Ident); ok && pk.Name == "table" && (inner.Sel.Name == "Rib" || inner.Sel.Name == "FibStrategyTable") {
+						if sel.Sel.Name == "CleanUpFace" && len(c.Args) == 1 {
+							if a, ok := c.Args[0].(*ast.Ident); ok {
+								own := false
+								for _, g := range gone {
+									if g.id == a.Name && g.lo <= c.Pos() && c.Pos() < g.hi {
+										own = true
+									}
+								}
+								inl := false
+								for _, l := range loops {
+									if l.lo <= c.Pos() && c.Pos() < l.hi {
+										inl = true
+									}
+								}
+								if own && !inl {
+									guarded++
+									return true
+								}
+							}
+						}
 						calls++
 						for _, l := range loops {
 							if l.lo <= c.Pos() && c.Pos() < l.hi {
@@ -404,10 +463,16 @@ func mgmtHandlerFacts(repo string) string {
 				return true
 			})
 			rows = append(rows, fmt.Sprintf("  ⟨%q, %q, %q, %v, %d, %d, %d, %d, %d, %d, %v, %v⟩", recvType(fd), fd.Name.Name, "none", false, 0, 0, 0, 0, calls, inLoop, false, ptrRecv(fd)))
+			if guarded > 0 {
+				cleanups = append(cleanups, fmt.Sprintf("  (%q, %q, %d)", recvType(fd), fd.Name.Name, guarded))
+			}
 		}
 	}
 	sort.Strings(rows)
-	return "def mgmtHandlers : List MethodFact := [\n" + strings.Join(rows, ",\n") + "\n]\n"
+	sort.Strings(cleanups)
+	return "def mgmtHandlers : List MethodFact := [\n" + strings.Join(rows, ",\n") + "\n]\n\n" +
+		"/-- `table.Rib.CleanUpFace(x)` under `if face.FaceTable.Get(x) == nil`: the teardown's clean-up repeated -/\n" +
+		"def mgmtGuardedCleanups : List (String × String × Nat) := [\n" + strings.Join(cleanups, ",\n") + "\n]\n"
 }
 
 func main() {
